@@ -56,7 +56,11 @@ def proof_items():
     from contracts import misc
     from vf.driver import ProofItem
     from contracts import run
+    from contracts import small
+    sreg = lambda: {**{c.short: c for c in small.STORAGE}, **{c.name: c for c in small.STORAGE}}  # noqa: E731
     return [ProofItem(misc.executor_for_func, gen=_exf_gen),
+            # which backend an output is stored in: one for all, else its own entry, else the default entry ""
+            ProofItem(small.storage_class, gen=small.sc_gen, registry=sreg),
             # each element is written once, under the key of its linear index, on exactly one side of the executor
             ProofItem(run.update_array, gen=run.gen)]
 
